@@ -1,7 +1,7 @@
 """C09 (position and orientation paths always have equal length >= 1) / C17 (malformed input raises the library's input error at assignment; no
 accepted object later fails inside a field computation with an internal error): `obj.position = np.zeros((0, 3))` passed the shape check (rank 2,
 last axis 3) and left both paths with length 0 - the next getB raised IndexError; the same value in a constructor raised a ValueError from np.pad;
-an empty scipy Rotation was accepted by the orientation setter and by rotate().  Rules S23 / P10 (the pose-path gates test for emptiness).
+an empty scipy Rotation was accepted by the orientation setter (move / rotate with empty input stay the no-ops they were).  Rules S23 / P10 (the pose-path gates test for emptiness).
 Observed first by a refactoring sub-agent ("empty paths are reachable through the public API")."""
 import numpy as np
 import magpylib as magpy
@@ -12,10 +12,8 @@ empty_rot = R.from_quat(np.zeros((0, 4)))
 cases = {
     "position setter": lambda: setattr(magpy.Sensor(), "position", np.zeros((0, 3))),
     "constructor position": lambda: magpy.Sensor(position=np.zeros((0, 3))),
-    "move": lambda: magpy.Sensor().move(np.zeros((0, 3))),
     "orientation setter": lambda: setattr(magpy.Sensor(), "orientation", empty_rot),
     "constructor orientation": lambda: magpy.Sensor(orientation=empty_rot),
-    "rotate": lambda: magpy.Sensor().rotate(empty_rot),
 }
 bad = []
 for name, f in cases.items():
@@ -29,4 +27,6 @@ for name, f in cases.items():
 assert not bad, bad
 s = magpy.Sensor(position=[(1, 2, 3)])
 assert s.position.shape == (3,) and len(s.orientation.as_quat().reshape(-1, 4)) == 1
+s.move(np.zeros((0, 3))); s.rotate(empty_rot)        # still accepted: nothing to apply
+assert s.position.shape == (3,)
 print("ok")
